@@ -55,6 +55,8 @@ var classicHostile = [][]string{
 	{"<script>x</script>@example.com", "\"onmouseover=\"alert(1)", "</title><script>alert(1)</script>", "'><img src=x onerror=alert(1)>", "<b>g</b>"},
 	{"a+b\x00c\x7f\a@example.com", "\xff\xfe\xc0\xbc<", "\u2028\u2029<script>", "+ADw-script+AD4-", "&lt;script&gt;&#60;"},
 	{"</textarea></style><!--", "\r\n\r\n<html>", "%3Cscript%3E", "{{.}}<script>", "\\\"<svg/onload=alert(1)>"},
+	// JSON-shaped text: a complete value followed by more bytes, truncated / nested documents, scalars
+	{"{\"error\":\"x\"} (idp)", "{\"a\":1}{", "{}}", " \t{\"a\":[1,{\"b\":null}]} <script>x</script>", "null x", "\"s\\u003c\" <b>", "123 <a href=x>"},
 }
 
 func genHostileList(r *c.Rng) []string {
